@@ -83,6 +83,38 @@ pub fn dispatch(op: &str, a: &[&str]) -> Option<Ans> {
             };
             (r, "n/a".into())
         }
+        // tryfrom <cont> <N> <payload>: TryFrom<&[u8]> of a fixed-length container, and the key-pair slice decoders
+        "tryfrom" => {
+            let (cont, n) = (a[0], a[1].parse::<usize>().unwrap());
+            let p = unhex(a[2]);
+            use std::convert::TryFrom;
+            macro_rules! tf { ($t:ty) => { match <$t>::try_from(p.as_slice()) { Ok(v) => ok(v.as_slice()), Err(_) => "err".to_string() } }; }
+            let r: String = match (cont, n) {
+                ("stack", 8) => tf!(StackByteArray<8>),
+                ("stack", 16) => tf!(StackByteArray<16>),
+                ("stack", 24) => tf!(StackByteArray<24>),
+                ("stack", 32) => tf!(StackByteArray<32>),
+                ("stack", 64) => tf!(StackByteArray<64>),
+                #[cfg(feature = "nightly")]
+                ("heap", 16) => tf!(dryoc::protected::HeapByteArray<16>),
+                #[cfg(feature = "nightly")]
+                ("heap", 32) => tf!(dryoc::protected::HeapByteArray<32>),
+                #[cfg(feature = "nightly")]
+                ("heap", 64) => tf!(dryoc::protected::HeapByteArray<64>),
+                // key-pair decoders: public key ‖ secret key, split in the middle of the payload
+                ("keypair", _) => {
+                    let (pk, sk) = p.split_at(p.len() / 2);
+                    match dryoc::keypair::StackKeyPair::from_slices(pk, sk) { Ok(k) => ok(&[k.public_key.to_vec(), k.secret_key.to_vec()].concat()), Err(_) => "err".into() }
+                }
+                ("signkeypair", _) => {
+                    let cut = p.len() / 3;
+                    let (pk, sk) = p.split_at(cut);
+                    match dryoc::sign::SigningKeyPair::<dryoc::sign::PublicKey, dryoc::sign::SecretKey>::from_slices(pk, sk) { Ok(k) => ok(&[k.public_key.to_vec(), k.secret_key.to_vec()].concat()), Err(_) => "err".into() }
+                }
+                _ => "n/a".into(),
+            };
+            (r, "n/a".into())
+        }
         "serde_bytes" => {
             let (cont, fmt) = (a[0], a[1]);
             let payload = unhex(a[2]);
